@@ -41,6 +41,27 @@ Definition sub_by_flag (b : batch) (first : nat) : res (option batch) :=
       sb <- batch_sub b first last ;; Ok (Some sb)
   end.
 
+(* repaired (fx_procfatal): in the RecordFlagNack arm of doTaskAttempt an error of acker.Nack on the
+   nacked records of a *processor* task comes back wrapped in cerrors.FatalError (the code of the
+   error is kept); errors for records nacked by the destination task are returned as they are *)
+Definition fatalize {A} (on : bool) (m : M A) : M A :=
+  fun w => match m w with
+           | (Refused e, w') => (Refused (if on then mkE true (e_code e) (e_at e) else e), w')
+           | x => x
+           end.
+
+(* fatalize changes nothing but the payload of a refusal *)
+Lemma fatalize_inv {A} on (m : M A) w r w' :
+  fatalize on m w = (r, w') ->
+  exists r0, m w = (r0, w') /\ (r0 = r \/ exists e e', r0 = Refused e /\ r = Refused e').
+Proof.
+  unfold fatalize. destruct (m w) as [r0 w1] eqn:E. destruct r0; intros H; inversion H; subst; eauto.
+  eexists. split; [reflexivity|]. right. eauto.
+Qed.
+
+Definition nack_vote (c : cfg) (sb : batch) (ti : nat) : M unit :=
+  fatalize (fx_procfatal (c_fix c) && negb (is_last c ti)) (vote c sb false ti).
+
 (* retryAttempt: (count, size, stall) *)
 Definition retry_t := (nat * nat * nat)%type.
 
@@ -73,7 +94,7 @@ Fixpoint tloop (c : cfg) (ti : nat) (b : batch) (retry : option retry_t)
           (match fst s0 with
            | FAck | FFilter =>
                if is_last c ti || negb (has_active sb) then vote c sb true 0 else next sb
-           | FNack => vote c sb false ti
+           | FNack => nack_vote c sb ti
            | FRetry =>
                sb' <-- lift (batch_ack sb 0 (Some (length (records sb)))) ;;;
                nx <-- lift (retry_next (N.to_nat (c_maxattempts c)) (N.to_nat (c_maxstall c))
